@@ -21,8 +21,10 @@ QUICK_RUNS = 14000
 THOROUGH_RUNS = 400000
 QUICK_BUDGET = 100
 THOROUGH_BUDGET = 1500
-RULE = ('one run = one hand played on one of the 12 predefined variants with random parameters (bet sizes, antes, '
-        'blinds/bring-in, 2..max players, stacks, modes, automation subsets). Static half (configuration check): the '
+RULE = ('one run = one hand played on one of the 12 predefined variants with random parameters (bet sizes incl. a big bet of '
+        '1x, 2x or 3x the small bet, antes, blinds/bring-in, 2..max players, stacks, modes, automation subsets), the state '
+        'being constructed by calling the game object, or by create_state, positionally or with every parameter passed by '
+        'keyword. Static half (configuration check): the '
         'created state\'s deck, hand types, every street (burn, facings, board count, draw, opening rule, bet size, cap) and '
         'betting structure equal the hand-written variant table ref/var.py, and the hand-history code maps to the class. '
         'Dynamic half: the betting model, the dealing model and the settlement model of C03/C10/C02 are instantiated '
@@ -36,7 +38,7 @@ ASSUMPTIONS = [
     'percentage rake, on those the settlement model is not attached',
 ]
 BIAS = dict(variants=PREDEFINED_CODES, custom_num=0, chips=('int', 'fraction'), rakes=('none', 'none', 'pct'), sbcs=(1, 1, 1, 2),
-            divmods=('default',))
+            divmods=('default',), ctor_variety=True, big_mults=(2, 2, 2, 1, 3))
 STRUCT = {'NL': 'NO_LIMIT', 'PL': 'POT_LIMIT', 'FL': 'FIXED_LIMIT'}
 
 
@@ -57,7 +59,7 @@ def static_check(cfg, st):
         fail(f'betting structure {st.betting_structure.name}, documented {STRUCT[v["structure"]]}')
     if len(st.streets) != len(v['streets']):
         fail(f'{len(st.streets)} streets, documented {len(v["streets"])}')
-    amount = {'small': conv(cfg, cfg['bb']), 'big': conv(cfg, cfg['bb'] * 2), 'min': conv(cfg, cfg['bb'])}
+    amount = {'small': conv(cfg, cfg['bb']), 'big': conv(cfg, cfg['bb'] * cfg.get('big_mult', 2)), 'min': conv(cfg, cfg['bb'])}
     for k, (s, w) in enumerate(zip(st.streets, v['streets'])):
         burn, facings, board, draw, opening, size, cap = w
         have = (s.card_burning_status, tuple(s.hole_dealing_statuses), s.board_dealing_count, s.draw_status,
@@ -77,7 +79,7 @@ def static_check(cfg, st):
 
 def bet_model_factory(cfg):
     v = VAR[cfg['variant']]
-    amount = {'small': conv(cfg, cfg['bb']), 'big': conv(cfg, cfg['bb'] * 2), 'min': conv(cfg, cfg['bb'])}
+    amount = {'small': conv(cfg, cfg['bb']), 'big': conv(cfg, cfg['bb'] * cfg.get('big_mult', 2)), 'min': conv(cfg, cfg['bb'])}
 
     def make(st):
         streets = [(opening, amount[size], cap) for (_, _, _, _, opening, size, cap) in v['streets']]
@@ -125,4 +127,6 @@ def run(ch, ctx):
     ctx.count('split_game_two_halves', sum(1 for s in settle.result.get('shapes', []) if s[2] == 1))
     ctx.count('showdowns', 's' in seq)
     ctx.count('raked_tables', cfg['rake'] != 'none')
+    ctx.count('constructed_by_' + cfg.get('ctor', 'call'))
+    ctx.count('big_bet_is_%dx_small_bet' % cfg.get('big_mult', 2), cfg['variant'] in ('FT', 'FO8', 'F7S', 'F7S8', 'FR', 'F2L3D', 'FB'))
     std_finish(world, ctx, 'r' in seq or 's' in seq)
